@@ -40,7 +40,8 @@ Record env_ok (cs : cmdset) (handler : nat -> list N -> list (list N) -> list ho
   eo_handler : forall n name args, hops_ok (handler n name args);
   eo_list : hops_ok (cs_list_help cs);
   eo_help : forall n a hs, cs_cmd_help cs n a = Some hs -> hops_ok hs;
-  eo_parse : forall n a e, Forall ptext (n :: a) -> cs_parse cs n a = Some e -> perr_ok e }.
+  eo_parse : forall n a e, Forall ptext (n :: a) -> cs_parse cs n a = Some e -> perr_ok e;
+  eo_fail : forall k n a e, Forall ptext (n :: a) -> cs_fail cs k n a = Some e -> perr_ok e }.
 
 (* application output: LF -> CR LF keeps the lexer in the ground state *)
 Lemma lf_to_crlf_ge32 c : Forall ge32 c -> lf_to_crlf c = c.
@@ -499,8 +500,15 @@ Section ViewKeys.
       - unfold process_command. rewrite Ep. destruct (fl_out s) as (s1 & E1 & _ & O1). destruct (process_error_out e s1) as (s2 & E2 & _ & O2).
         exists s2. eexists. split; [eapply bind_ok; eauto|]. split; [exact (Outs_trans _ _ _ _ _ O1 O2)|].
         right. exists (ERR_PREFIX ++ err_text e). split; [reflexivity|]. apply Plain_err. exact (eo_parse _ _ Henv name args e Hpt Ep).
-      - destruct (process_command_bytes cs handler name args s Ep) as (s' & O & E & Out & B). exists s'. eexists. split; [exact E|].
-        split; [unfold Outs, obytes; rewrite Out, ops_bytes_app, B; reflexivity|]. apply EndsOK_cmd_bytes, (eo_handler _ _ Henv). }
+      - destruct (process_command_prefix cs handler name args s Ep) as (s6 & O & E & Out & B).
+        assert (O6 : Outs s s6 (cmd_bytes (handler (length (hcalls s)) name args))) by (unfold Outs, obytes; rewrite Out, ops_bytes_app, B; reflexivity).
+        destruct (cs_fail cs (length (hcalls s)) name args) as [e|] eqn:Ef.
+        + (* the processor rejects the command after its output: the error line follows the closed output *)
+          destruct (process_error_out e s6) as (s7 & E7 & _ & O7). exists s7. eexists. split; [rewrite E; exact E7|].
+          split; [exact (Outs_trans _ _ _ _ _ O6 O7)|]. right. exists (cmd_bytes (handler (length (hcalls s)) name args) ++ ERR_PREFIX ++ err_text e).
+          split; [rewrite <- !app_assoc; reflexivity|]. apply Plain_app; [apply EndsOK_Plain, EndsOK_cmd_bytes, (eo_handler _ _ Henv)|].
+          apply Plain_err. exact (eo_fail _ _ Henv _ name args e Hpt Ef).
+        + exists s6. eexists. split; [exact E|]. split; [exact O6|]. apply EndsOK_cmd_bytes, (eo_handler _ _ Henv). }
     destruct (f_help feats); cbn [andb]; [|exact CMD].
     destruct (help_request_some name args Hargs) as [hr Hr]. rewrite Hr, bind_lift_some. destruct hr as [req|]; [|exact CMD].
     destruct (process_help_out req s) as (s' & E & O). exists s'. eexists. split; [exact E|]. split; [exact O|]. apply EndsOK_cmd_bytes, help_hops_ok.
